@@ -826,7 +826,7 @@ theorem applyPolicyAll_outcomes_nodup {ι κ : Type} [DecidableEq ι] [Decidable
     bit), `hne` at least one event (on a file with ZERO events `ndl.ndl` raises
     `IOError` while `wh.wh` returns: the two calls do NOT agree there),
     `hcfg : CfgOK` (`2 ≤ events_per_temporary_file < 2³²`, `1 ≤ n_outcomes_per_job`,
-    OpenMP: `n_outcomes + n_outcomes_per_job < 2³²`) of the `ndl.ndl` call, `hfit`
+    OpenMP: `n_outcomes_per_job < 2³²`, no wrap-around of the part bounds) of the `ndl.ndl` call, `hfit`
     (the 32-bit limits of the binary event format; `ndl.ndl` raises outside),
     `hp` the duplicate policy accepts the events;
     of `wh_r2b_end_to_end` (C08): `hc : 1 ≤ n_outcomes_per_job` of the `wh.wh`
